@@ -23,13 +23,13 @@ import (
 //  (d) cross-reference linters (printed into the evidence, never armed).
 
 type corpusEntry struct {
-	ID        string
-	Dir       string
-	Property  string   `json:"property"`
-	Also      []string `json:"also_detected_by_properties"`
-	Needs     string   `json:"needs_to_manifest"`
-	Detected  string   `json:"detected_by"`
-	Refactor  bool
+	ID       string
+	Dir      string
+	Property string   `json:"property"`
+	Also     []string `json:"also_detected_by_properties"`
+	Needs    string   `json:"needs_to_manifest"`
+	Detected string   `json:"detected_by"`
+	Refactor bool
 }
 
 func loadCorpus(verif, sub string) []corpusEntry {
